@@ -1,17 +1,182 @@
+import Srctools.Proofs.C09
 import Srctools.Gen.Copy
-/-! # C09 — copies are complete and independent (property theorems; first cut: table obligations) -/
-namespace C09
+/-!
+# C09 — copies of map objects are complete and independent of their source
 
-/-- OBLIGATION on the current source: no `copy()` drops a field. -/
+Property theorems only.  The model is the heap of `Model/Heap.lean`: `copyWith tr` is the copy
+*as coded*, driven by the per-class / per-field treatment function `Table.treat T` obtained from
+the table `Gen.Copy.table` that `tools/gen_copy.py` regenerates from `vmf.py` / `keyvalues.py`.
+
+* `C09_complete`, `C09_deep`, `C09_gen_ok`, `C09_add_target`, `C09_add_copies` are the obligations
+  on the table the source has **now** (decided by evaluation).
+* `C09_frame`, `C09_copy`, `C09_indep` hold for every table passing `tableOK`, every store and every
+  sequence of mutations; their hypotheses on the store (`closedB`, `immClosedB`, `wellKindedB`) are the
+  executable checks the driver evaluates on every store sampled from the implementation.
+* `C09_add_pure`, `C09_iadd` are the Keyvalues operators.
+-/
+namespace C09
+open Heap
+
+/-! ## obligations on the current source -/
+
+/-- OBLIGATION: no `copy()` drops a field. -/
 theorem C09_complete : noMissing Gen.Copy.table = true := by decide
 
-/-- OBLIGATION on the current source: no `copy()` shares a mutable object (and every field was classified). -/
+/-- OBLIGATION: no `copy()` shares a mutable object (and every field was classified). -/
 theorem C09_deep : noShared Gen.Copy.table = true := by decide
 
 /-- OBLIGATION: every (kind, treatment) pair of the table is an acceptable one. -/
 theorem C09_gen_ok : tableOK Gen.Copy.table = true := by decide
 
-/-- OBLIGATION: the loop of `Keyvalues.__add__` appends to the copy. -/
+/-- OBLIGATION: the loop of `Keyvalues.__add__` appends to the copy, not to `self`. -/
 theorem C09_add_target : Gen.Copy.kvAddTarget = AddTarget.copy := by decide
+
+/-- OBLIGATION: `+`, `+=` and `extend` append copies of the other operand's children. -/
+theorem C09_add_copies :
+    Gen.Copy.kvAddCopies = true ∧ Gen.Copy.kvIAddCopies = true ∧ Gen.Copy.kvExtendCopies = true := by
+  decide
+
+/-! ## heap theorems -/
+
+/-- **Frame.** On a closed store, a sequence of mutations all of whose targets satisfy `W` leaves the
+abstraction of `l` unchanged, provided every object reachable from `l` that satisfies `W` is immutable. -/
+theorem C09_frame {W : Nat → Prop} {h : Store} (hc : Closed h) {l : Nat} (hl : l < h.length)
+    (ops : List Op) (hw : ∀ op ∈ ops, ∀ t, op.target = some t → W t)
+    (hsep : ∀ x, Reach h l x → W x → IsImm h x) (m : Nat) :
+    abs m (run ops h) l = abs m h l :=
+  run_frame hc hl ops hw hsep m
+
+/-- **The copy as coded is a deep copy** when the table is acceptable and the store is well kinded:
+the store is only extended, the copy has the abstraction of the source (*complete*), and everything
+reachable from the copy is freshly allocated or immutable (*deep*). -/
+theorem C09_copy (T : Table) (hT : tableOK T = true) (h : Store)
+    (hc : closedB h = true) (hi : immClosedB h = true) (hk : wellKindedB T h = true)
+    (n l : Nat) (h1 : Store) (l' : Nat) (e : copyWith (Table.treat T) n h l = some (h1, l')) :
+    Sub h h1 ∧ (∀ m, abs m h1 l' = abs m h l) ∧ (∀ x, Reach h1 l' x → h.length ≤ x ∨ IsImm h1 x) := by
+  obtain ⟨sb, _, _, _, ha, hs, _⟩ :=
+    copyWith_spec (Table.treat T) n h l h1 l' (wf_of_B hc hi) ((adequate_of_table hT hk).from l) e
+  exact ⟨sb, ha, hs⟩
+
+/-- **Independence.** After such a copy: (1) the copy has the abstraction of the source; (2) the source
+still has it; (3) only immutable objects are reachable from both; (4) any sequence of mutations of
+objects allocated by or after the copy is invisible through the source; (5) any sequence of
+mutations that avoids the objects allocated by the copy is invisible through the copy. -/
+theorem C09_indep (T : Table) (hT : tableOK T = true) (h : Store)
+    (hc : closedB h = true) (hi : immClosedB h = true) (hk : wellKindedB T h = true)
+    (n l : Nat) (h1 : Store) (l' : Nat) (e : copyWith (Table.treat T) n h l = some (h1, l')) :
+    (∀ m, abs m h1 l' = abs m h l) ∧
+    (∀ m, abs m h1 l = abs m h l) ∧
+    (∀ x, Reach h1 l' x → Reach h1 l x → IsImm h1 x) ∧
+    (∀ ops : List Op, (∀ op ∈ ops, ∀ t, op.target = some t → h.length ≤ t) →
+        ∀ m, abs m (run ops h1) l = abs m h l) ∧
+    (∀ ops : List Op, (∀ op ∈ ops, ∀ t, op.target = some t → t < h.length ∨ h1.length ≤ t) →
+        ∀ m, abs m (run ops h1) l' = abs m h l) :=
+  copy_indep (wf_of_B hc hi) ((adequate_of_table hT hk).from l) e
+
+/-- `C09_indep` for the table extracted from the current source. -/
+theorem C09_indep_gen (h : Store)
+    (hc : closedB h = true) (hi : immClosedB h = true) (hk : wellKindedB Gen.Copy.table h = true)
+    (n l : Nat) (h1 : Store) (l' : Nat)
+    (e : copyWith (Table.treat Gen.Copy.table) n h l = some (h1, l')) :
+    (∀ m, abs m h1 l' = abs m h l) ∧
+    (∀ x, Reach h1 l' x → Reach h1 l x → IsImm h1 x) ∧
+    (∀ ops : List Op, (∀ op ∈ ops, ∀ t, op.target = some t → h.length ≤ t) →
+        ∀ m, abs m (run ops h1) l = abs m h l) ∧
+    (∀ ops : List Op, (∀ op ∈ ops, ∀ t, op.target = some t → t < h.length ∨ h1.length ≤ t) →
+        ∀ m, abs m (run ops h1) l' = abs m h l) := by
+  obtain ⟨a, _, c, d, f⟩ := C09_indep Gen.Copy.table C09_gen_ok h hc hi hk n l h1 l' e
+  exact ⟨a, c, d, f⟩
+
+/-- A `shared` treatment is genuinely unsafe: with a table that keeps a field holding a mutable
+object, a write through the copy is visible through the source (the model exhibits the defect that
+`Solid.copy` / `Entity.copy` had). Store: 0 = a mutable Vec-like cell, 1 = an object whose field 0
+refers to it. -/
+theorem C09_shared_unsafe :
+    let T : Table := [{ name := "K", site := "", fields := [{ name := "c", kind := .mutObj, treat := .shared }] }]
+    let h : Store := [{ cls := 0, mu := true, fields := [(0, .val 1)] },
+                      { cls := 1, mu := true, fields := [(0, .ref 0)] }]
+    ∃ h1 l', copyWith (Table.treat T) 3 h 1 = some (h1, l') ∧ h.length ≤ l' ∧
+      -- writing to the cell reached through the copy changes what the source sees
+      abs 2 (run [Op.write 0 0 (.val 9)] h1) 1 ≠ abs 2 h 1 ∧ Reach h1 l' 0 := by
+  refine ⟨_, _, rfl, by decide, ?_, ?_⟩
+  · intro hh
+    simp [run, step, abs, absSlot, setField, slotValid] at hh
+  · exact Reach.step (o := { cls := 1, mu := true, fields := [(0, .ref 0)] }) (f := 0) rfl (by simp) (Reach.refl 0)
+
+/-! ## Keyvalues operators -/
+
+/-- **`a + b` is pure** (with the target the source has now): nothing that existed before the
+operation is modified — so `a`, `b` and every child keep their abstraction — and the result is a
+fresh object whose children are the abstractions of `a`'s children followed by those of the
+elements of `b` (copies). `bl` is the list iterated (the children list of `b`, or `b` itself). -/
+theorem C09_add_pure {tr : Nat → Nat → Treat} {n vf : Nat} {h h2 : Store} {a bl c ta : Nat}
+    (wf : WF h) (adqa : AdequateFrom tr h a)
+    (hka : kidsLoc vf h a = some ta)
+    (hma : ∀ o, h[a]? = some o → o.mu = true)
+    (hmta : ∃ o, h[ta]? = some o ∧ o.mu = true)
+    (hbl : bl < h.length)
+    (adqb : ∀ k, Slot.ref k ∈ listElems h bl → AdequateFrom tr h k)
+    (e : kvAdd Gen.Copy.kvAddTarget tr n vf h a bl = some (h2, c)) :
+    Keeps h h2 ∧ h.length ≤ c ∧
+    (∀ m x, x < h.length → abs m h2 x = abs m h x) ∧
+    (∀ m, kidsAbs m vf h2 c = kidsAbs m vf h a ++ (listElems h bl).map (absSlot (abs m h))) := by
+  rw [C09_add_target] at e
+  exact kvAdd_pure wf adqa hka hma hmta hbl adqb e
+
+/-- The variant the source had before the fix (`self` as target) is not pure: on the store
+0 = children list of `a` (empty), 1 = `a`, 2 = a leaf, 3 = the list `[leaf]`, `a + [leaf]` leaves one
+child in `a`'s own list and none in the result's. -/
+theorem C09_add_self_defect :
+    let h : Store := [{ cls := 1000, mu := true, fields := [] },
+                      { cls := 5, mu := true, fields := [(7, .ref 0)] },
+                      { cls := 5, mu := true, fields := [(7, .val 42)] },
+                      { cls := 1000, mu := true, fields := [(0, .ref 2)] }]
+    (kvAdd AddTarget.self (fun _ _ => Treat.deep) 5 7 h 1 3).map
+        (fun r => ((listElems r.1 0).length, (kidsAbs 1 7 r.1 r.2).length)) = some (1, 0) ∧
+    (kvAdd AddTarget.copy (fun _ _ => Treat.deep) 5 7 h 1 3).map
+        (fun r => ((listElems r.1 0).length, (kidsAbs 1 7 r.1 r.2).length)) = some (0, 1) := by
+  decide
+
+/-- **`a += b` / `a.extend(b)`**: only the children list of `a` changes; it gains one element per
+element of `b`, each with the abstraction of its source, and (being copies made by `copyWith`)
+later mutation of `b`'s elements cannot show through them — see `C09_indep`. -/
+theorem C09_iadd {tr : Nat → Nat → Treat} {n vf : Nat} {h h2 : Store} {a bl ta : Nat}
+    (wf : WF h) (hka : kidsLoc vf h a = some ta)
+    (hmta : ∃ o, h[ta]? = some o ∧ o.mu = true)
+    (hel : ∀ k, Slot.ref k ∈ listElems h bl → k < h.length ∧ ¬ Reach h k ta ∧ AdequateFrom tr h k)
+    (e : kvIAdd true tr n vf h a bl = some h2) :
+    KeepsExcept ta h h2 ∧
+    ∃ news : List Slot, listElems h2 ta = listElems h ta ++ news ∧
+      ∀ m, news.map (absSlot (abs m h2)) = (listElems h bl).map (absSlot (abs m h)) := by
+  obtain ⟨_, ke, news, h1, h2'⟩ := kvIAdd_spec wf hka hmta hel e
+  exact ⟨ke, news, h1, h2'⟩
+
+/-! ## non-vacuity -/
+
+/-- A small `Solid` store (class 4 of the generated table: fields 0 `map`, 1 `id`, 2 `sides`,
+3 `visgroup_ids`, 9 `editor_color`; builtins ≥ 1000: 0,1 = Vec, 2 = list [Vec, FrozenVec], 3 = set,
+4 = FrozenVec (immutable, shared by the copy)) satisfies all the hypotheses of `C09_indep_gen`, the copy
+succeeds, allocates, and shares the immutable object only. -/
+example :
+    let h : Store := [{ cls := 1004, mu := true, fields := [(0, .val 1), (1, .val 2), (2, .val 3)] },
+                      { cls := 1004, mu := true, fields := [(0, .val 4), (1, .val 5), (2, .val 6)] },
+                      { cls := 1000, mu := true, fields := [(0, .ref 1), (1, .ref 4)] },
+                      { cls := 1001, mu := true, fields := [(0, .val 5)] },
+                      { cls := 1008, mu := false, fields := [(0, .val 7)] },
+                      { cls := 4, mu := true, fields := [(0, .val 0), (1, .val 0), (2, .ref 2), (3, .ref 3),
+                                                         (4, .val 0), (9, .ref 0)] }]
+    closedB h = true ∧ immClosedB h = true ∧ wellKindedB Gen.Copy.table h = true ∧
+    (copyWith (Table.treat Gen.Copy.table) 4 h 5).map (fun r => (r.1.length, r.2)) = some (11, 10) := by
+  decide
+
+/-- The hypotheses of `C09_add_pure` are satisfiable (store of `C09_add_self_defect`). -/
+example :
+    let h : Store := [{ cls := 1000, mu := true, fields := [] },
+                      { cls := 5, mu := true, fields := [(7, .ref 0)] },
+                      { cls := 5, mu := true, fields := [(7, .val 42)] },
+                      { cls := 1000, mu := true, fields := [(0, .ref 2)] }]
+    closedB h = true ∧ immClosedB h = true ∧ adequateB (fun _ _ => Treat.deep) h = true ∧
+    kidsLoc 7 h 1 = some 0 ∧ (kvAdd AddTarget.copy (fun _ _ => Treat.deep) 5 7 h 1 3).isSome = true := by
+  decide
 
 end C09
